@@ -1,12 +1,77 @@
 import Driver.Util
-/-! Driver section for C10 (stub until the model is online). -/
+import RxnModel.Model.Timers
+/-!
+Driver section for C10. Header: `M C10 <kgc> <start> <stop> <cacheBytes> <runners>`.
+Runs `Timers.Registry` (the definitions the theorems of Props/C10.lean are about).
+-/
 namespace Driver.C10
-open Rxn Driver
+open Rxn Driver Rxn.Timers
 
-def step (st : Unit) : List String → Unit × String
+structure Cfg where
+  kgc : Nat := 1
+  start : Nat := 0
+  stop : Nat := 1
+  cache : Nat := 0
+  runners : Nat := 1
+
+structure St where
+  cfg : Cfg := {}
+  reg : Registry := Registry.new (Store.new [] 1 0 1 0) []
+  ckpt : Option DB := none
+
+def intOr (s : String) : Int := s.toInt?.getD 0
+
+def runnerIds (n : Nat) : List String := (List.range n).map fun i => s!"sr{i}"
+
+def freshReg (c : Cfg) (db : DB) : Registry :=
+  Registry.new (Store.new db c.kgc c.start c.stop c.cache) (runnerIds c.runners)
+
+def initSt (hdr : List String) : St :=
+  match hdr with
+  | ["M", _, kgc, start, stop, cache, runners] =>
+    let c : Cfg := ⟨natOr kgc, natOr start, natOr stop, natOr cache, natOr runners⟩
+    { cfg := c, reg := freshReg c [] }
+  | _ => {}
+
+/-- canonical order for printing: by timestamp, ties by subject key bytes -/
+def firedLe (a b : Bytes × Int) : Bool :=
+  a.2 < b.2 || (a.2 == b.2 && Bytes.cmp a.1 b.1 != .gt)
+
+def insertFired (x : Bytes × Int) : List (Bytes × Int) → List (Bytes × Int)
+  | [] => [x]
+  | y :: ys => if firedLe x y then x :: y :: ys else y :: insertFired x ys
+
+def sortFired (l : List (Bytes × Int)) : List (Bytes × Int) := l.foldr insertFired []
+
+def showFired (l : List (Bytes × Int)) : String :=
+  if l.isEmpty then "-" else joinWith "," ((sortFired l).map fun p => s!"{p.2}:{toHex p.1}")
+
+def step (st : St) : List String → St × String
+  | ["set", k, t] =>
+    let key := hexOr k
+    if !st.reg.store.owns key then (st, "notowned") else
+    ({ st with reg := st.reg.setTimer key (intOr t) }, "ok")
+  | ["put", k, t] =>
+    let key := hexOr k
+    if !st.reg.store.owns key then (st, "notowned") else
+    ({ st with reg := { st.reg with store := st.reg.store.put key (intOr t) } }, "ok")
+  | ["adv", i, wm] =>
+    let r := st.reg.advance s!"sr{natOr i}" (intOr wm)
+    ({ st with reg := r.1 }, s!"c={r.1.wm} f={showFired r.2}")
+  | ["earliest"] =>
+    match st.reg.store.earliest with
+    | none => (st, "none")
+    | some k => (st, s!"t={(timerOf k).2}")
+  | ["dbcount"] => (st, toString st.reg.store.timerKeys.length)
+  | ["ckpt"] => ({ st with ckpt := some st.reg.store.db }, "ok")
+  | ["restore"] =>
+    match st.ckpt with
+    | none => (st, "nockpt")
+    | some db => ({ st with reg := freshReg st.cfg db }, "ok")
   | _ => (st, "bad-op")
 
 def handle (lines : Array String) (i : Nat) (out : Array String) : Nat × Array String :=
-  runLines step () lines i out
+  let hdr := if i = 0 then [] else words (lines.getD (i - 1) "")
+  runLines step (initSt hdr) lines i out
 
 end Driver.C10
